@@ -14,7 +14,7 @@ for fams in check_codec.FAMILIES.values():
         check_codec.gen_vectors(f)
 check_decoders.gen('lsgrid', 1)
 check_decoders.gen('sidgrid', 1)
-for _f in ('capgrid', 'attrgrid', 'mpgrid', 'nestgrid', 'fslen'):
+for _f in ('capgrid', 'attrgrid', 'mpgrid', 'nestgrid', 'fslen', 'lsnlri', 'deepgrid', 'textgrid'):
     check_decoders.gen(_f, 1)
 check_decoders.gen("short", 2)
 check_codec.gen_vectors("elems")
